@@ -243,6 +243,7 @@ def oracle_c18(ctx):
     res = Result('c18.roundtrip')
     g = ctx.gen
     sizes = [1, 2, 7, 8, 255, 256, 4095, 4096, 131071, 131072] if ctx.thorough else [1, 2, 7, 8, 256, 4096, 131072]
+    sizes = sorted(set(sizes + [x for x in lanes.size_boundaries(ctx) if x <= 131072]))
     for n in sizes:
         for content in [bytes(g.r.getrandbits(8) for _ in range(min(n, 4096))) * (n // min(n, 4096)) + b'\x00' * (n % min(n, 4096)),
                         b'\xce' * n, (b'AMQP\x00\x00\x09\x01' * n)[:n], (b'\x08\x00\x00\x00\x00\x00\x00\xce' * n)[:n],
@@ -465,8 +466,24 @@ def oracle_c05(ctx):
 
 # =============================================================== C06 / C07 / C20 framing
 
-def valid_frames(ctx, n):
+def boundary_bodies(ctx):
+    """body frames whose payload size sits on a mined size boundary (+-8) or beyond the largest,
+    filled with frame-end octets / a rolling pattern"""
     out = []
+    sizes = lanes.size_boundaries(ctx)
+    big = max(sizes) if sizes else 131072
+    for n in sizes + [big + 9000]:
+        for content in (b'\xce' * n, bytes(range(256)) * (n // 256) + bytes(range(n % 256))):
+            f = body.ContentBody(content)
+            try:
+                out.append((f, 5, frame.marshal(f, 5)))
+            except Exception:  # noqa
+                pass
+    return out
+
+
+def valid_frames(ctx, n, boundaries=False):
+    out = boundary_bodies(ctx) if boundaries else []
     for _ in range(n):
         f, ch = lanes.random_frame(ctx)
         try:
@@ -511,6 +528,12 @@ def oracle_c06(ctx):
     res = Result('c06.stream')
     g = ctx.gen
     frames = valid_frames(ctx, 1500 if ctx.thorough else 300)
+    for f_, ch_, b_ in boundary_bodies(ctx):
+        res.case('boundary body %d' % len(b_), tag='boundary')
+        kk, bad = catching(c06_stream_case, [b_, b_[:8] if False else b'\x08\x00\x00\x00\x00\x00\x00\xce'], b'')
+        if kk != 'ok' or bad:
+            res.violation('stream with a %d-byte body frame' % len(b_), {'fn': 'c06_stream_case', 'args': '([b"\\x03\\x00\\x05" + (%d).to_bytes(4, "big") + %r * %d + b"\\xce", b"\\x08\\x00\\x00\\x00\\x00\\x00\\x00\\xce"], b"")' % (len(b_) - 8, b_[7:8], len(b_) - 8)},
+                          bad[0] if kk == 'ok' else 'decodes', bad[1] if kk == 'ok' else repr(bad))
     for i in range(600 if ctx.thorough else 120):
         k = g.r.choice([1, 2, 3, 5, 10, 50 if ctx.thorough else 12])
         datas = [g.r.choice(frames)[2] for _ in range(k)]
@@ -575,18 +598,21 @@ def c07_case(data, k):
 def oracle_c07(ctx):
     res = Result('c07.prefix')
     g = ctx.gen
-    frames = valid_frames(ctx, 4000 if ctx.thorough else 400)
+    frames = valid_frames(ctx, 4000 if ctx.thorough else 400, boundaries=True)
     frames.append((None, 0, b'\x08\x00\x00\x00\x00\x00\x00\xce'))
     frames.append((None, 0, b'AMQP\x00\x00\x09\x01'))
     for f, ch, b in frames:
+        near = [x + d for x in lanes.size_boundaries(ctx) for d in (6, 7, 8, 9)] if len(b) > 4000 else []
         cuts = range(len(b)) if len(b) <= 300 else sorted(set(list(range(16)) + list(range(len(b) - 12, len(b))) +
-                                                               [g.r.randrange(len(b)) for _ in range(40)]))
+                                                               [g.r.randrange(len(b)) for _ in range(40)] +
+                                                               [x for x in near if 0 <= x < len(b)]))
         for k in cuts:
             res.case(b[:k].hex()[:600] + '/%d' % len(b), trivial=k == 0, tag='kind %d' % (b[0] if b else 0))
             bad = c07_case(b, k)
             if bad:
                 res.violation('strict prefix of length %d of a %d-byte frame' % (k, len(b)),
-                              {'fn': 'c07_case', 'args': pyrepr((b, k))}, bad[0], bad[1])
+                              {'fn': 'c07_case', 'args': pyrepr((b, k)) if len(b) < 5000 else '(bytes.fromhex(%r) + bytes.fromhex(%r) * %d + bytes.fromhex(%r), %d)' % (b[:7].hex(), b[7:8].hex(), len(b) - 8, b[-1:].hex(), k)}, bad[0], bad[1])
+                break
         if len(res.samples) < 3:
             res.samples.append({'frame': b.hex()[:80], 'cuts': len(cuts)})
     return res
@@ -619,7 +645,7 @@ def oracle_c20(ctx):
         bad = c20_case(b)
         if bad:
             res.violation('frame_parts', {'fn': 'c20_case', 'args': pyrepr((b,))}, bad[0], bad[1])
-    for f, ch, b in valid_frames(ctx, 1500 if ctx.thorough else 300):
+    for f, ch, b in valid_frames(ctx, 1500 if ctx.thorough else 300, boundaries=True):
         if isinstance(f, header.ProtocolHeader):
             continue
         res.case(b.hex()[:2000], tag='own frame')
